@@ -228,8 +228,9 @@ end
 
 /-- The block tree of a top-level function definition (`none` if the statement is not one). -/
 def blockOf (s : Stmt) : Option Block :=
-  -- (blocks made by the decorators / default values of the top-level function belong to the module)
-  (collectS s {}).children.find? fun b => b.id == s.id
+  -- (blocks made by the decorators / default values of the top-level function belong to the module;
+  --  the function's own block is the last one collected)
+  (collectS s {}).children.getLast?
 
 /-! ### Step 2: scopes of names -/
 
